@@ -45,7 +45,7 @@ ASSUMPTIONS = [
 PROBES = [
     "finalize_after_subframe_chunk", "utt_after_too_short", "utt_after_other_dtype", "refusal_at_first",
     "refusal_in_middle", "refusal_before_finalize", "finalize_x3", "full_after_stream", "stream_after_full",
-    "empty_chunk_starts_utterance",
+    "empty_chunk_starts_utterance", "refusal_other_dtype",
 ]
 FAULT_KINDS = ["refused_compute_full", "refused_frame_by_frame", "extra_finalize", "empty_delivery"]
 
@@ -89,7 +89,8 @@ def generate(rng, tier, k):
                 for _ in range(rng.choice((1, 1, 2))):
                     at = rng.choice((1, len(dl), rng.randrange(1, len(dl) + 1)))
                     refs.append({"at": int(at), "kind": rng.choice(("full", "fbf")),
-                                 "n": int(rng.choice((0, 1, L, 2 * L + 3))), "cs": int(rng.choice((1, S, 1024)))})
+                                 "n": int(rng.choice((0, 1, L, 2 * L + 3))), "cs": int(rng.choice((1, S, 1024))),
+                                 "dtype": rng.choice(("float64", "float32"))})
             utt["refusals"] = refs
         else:
             utt["deliveries"] = [[n, "ro"]]
@@ -358,6 +359,9 @@ def _refuse(c, r, rec, res, tr, fail, i, nd):
     rr = dict(rec)
     rr["n"] = int(r["n"])
     rr["seed"] = rec["seed"] ^ 0x5A5A
+    rr["dtype"] = r.get("dtype", rec.get("dtype", "float64"))  # the refused signal may be of another dtype
+    if rr["dtype"] != rec.get("dtype", "float64"):
+        res.probe("refusal_other_dtype")
     y = source.make_signal(rr)
     y.flags.writeable = False
     kind = r["kind"]
